@@ -216,6 +216,14 @@ def run_shard(spec):
             res["evaluations"] += 1
             cnt["dag_programs"] = cnt.get("dag_programs", 0) + 1
             res["distinct"].extend(f"dag|{spec['part']}|{j}|{q}" for q in range(nd))
+        if spec["part"] == 0:
+            # listed finding: a statement that consists of one bare name is an implicit '.word name' only if the name is ALREADY defined as
+            # a constant at that point; with the definition further down the same line is an unknown instruction
+            for nm, val in (("x", 5), ("count", 0o177777), ("a.b", 7)):
+                case = {"kind": "bare", "early": f"{nm} = {val}\n{nm}\n.word 1\n", "late": f"{nm}\n.word 1\n{nm} = {val}\n"}
+                vs, nd = run_case(case, cnt, root)
+                res["violations"].extend(vs)
+                res["evaluations"] += 1
         repo = os.environ.get("VERIF_REPO", "/repo")
         dirs = sorted(glob.glob(os.path.join(repo, "tests", "practice", "*", "")))
         for j, d in enumerate(dirs):
@@ -244,8 +252,19 @@ def run_case(case, cnt=None, root=None):
         root = tempfile.mkdtemp(prefix="c03-", dir=os.getcwd())
     out = []
     nd = 0
-    srnd = random.Random(case["seed"])
+    srnd = random.Random(case.get("seed", 0))
     try:
+        if case["kind"] == "bare":
+            oe = asm.assemble([(os.path.join(root, "bare.mac"), case["early"])], wall=60)
+            ol = asm.assemble([(os.path.join(root, "bare.mac"), case["late"])], wall=60)
+            cnt["placements_compared"] += 1
+            if meta.observable(oe) != meta.observable(ol):
+                out.append({"what": f"a bare-name statement: definition first gives {meta.describe(oe)}, definition last gives {meta.describe(ol)} "
+                                    f"({[e['id'] for e in ol.errors][:2]}); sources {case['early']!r} / {case['late']!r}", "case": case,
+                            "known_key": "bare-name-statement" if (oe.cls == "ok" and ol.cls == "fail" and "unknown-insn" in [e["id"] for e in ol.errors]) else None})
+                if out[-1]["known_key"] is None:
+                    del out[-1]["known_key"]
+            return (out, 1) if not own else out
         if case["kind"] in ("gen", "chain"):
             prog = apm.from_json(case["prog"])
 
